@@ -186,51 +186,130 @@ theorem aifeyn_rename {α} (o : LnOps α) (tree params : List String) (σ : Stri
 
 /-! ### the single-tree API -/
 
-/-- The parameter names present are exactly `a0 … a(m-1)` for some `m` (no gaps). -/
-def Gapless (labels : List String) : Prop :=
-  ∃ m, (∀ j, j < m → pname j ∈ labels) ∧ (∀ j, pname j ∈ labels → j < m)
+/-- The parameter predicate of `tree_to_aifeyn` (`l.startswith('a') and l[1:].isdigit()`), character by
+character: the letter `a` followed by at least one ASCII decimal digit. -/
+theorem isParamLike_iff (s : String) :
+    isParamLike s = true ↔ ∃ ds : List Char, s.toList = 'a' :: ds ∧ ds ≠ [] ∧ ∀ c ∈ ds, c.isDigit = true := by
+  unfold isParamLike
+  constructor
+  · intro h
+    split at h
+    · rename_i ds heq
+      refine ⟨ds, heq, ?_, ?_⟩
+      · intro he; rw [he] at h; simp [isDigitStr] at h
+      · intro c hc
+        have := (Bool.and_eq_true _ _).mp h
+        exact List.all_eq_true.mp this.2 c hc
+    · cases h
+  · intro ⟨ds, hs, hne, hd⟩
+    rw [hs]
+    have h1 : ds.isEmpty = false := by cases ds with | nil => exact absurd rfl hne | cons _ _ => rfl
+    simp [isDigitStr, h1, List.all_eq_true.mpr hd]
 
-/-- Every parameter name `a<j>` occurring in the tree is in `['a%i'%j for j in range(K)]`. -/
-def ParamsListed (labels : List String) (K : Nat) : Prop := ∀ j, pname j ∈ labels → j < K
+/-- every canonical name `'a%i' % j` is a parameter label -/
+theorem isParamLike_pname (j : Nat) : isParamLike (pname j) = true := by
+  rw [isParamLike_iff]
+  refine ⟨Nat.toDigits 10 j, ?_, Nat.toDigits_ne_nil, ?_⟩
+  · have h : (toString j : String) = Nat.repr j := rfl
+    have ha : ("a" : String).toList = ['a'] := by decide
+    simp only [pname, String.toList_append, h, Nat.toList_repr, ha, List.cons_append, List.nil_append]
+  · intro c hc
+    exact Nat.isDigit_of_mem_toDigits (by omega) (by omega) hc
 
-/-- **Single-tree API.** If the parameter names of `labels` have no gaps, every value returned by
-`tree_to_aifeyn(labels, basis)` (which derives its `param_list` from `get_max_param` of the printed
-function) is the value `aifeyn_complexity(labels, ['a0',…,'a(K-1)'])` that the generation pipeline stores for
-the same labels, for any `K` listing the tree's parameters.
-Without `Gapless` this is false for the code as written — see the example `gapped_counterexample` below. -/
-theorem single_api_agrees {α} (o : LnOps α) (b : Basis) (labels : List String) (K : Nat) (v : α)
-    (hg : Gapless labels) (hK : ParamsListed labels K)
+/-- **Single-tree API = the formula**, for *any* parameter names (gapped, permuted, `a007`): every value
+returned by `tree_to_aifeyn(labels, basis)` is `k·ln n + Σ ln c'_j` where the free parameters are exactly the
+labels `a<digits>` of the tree (all counted as one symbol together with the integers). -/
+theorem single_api_spec {α} (o : LnOps α) (b : Basis) (labels : List String) (v : α)
+    (hv : treeToAifeyn o b labels = .ok v)
+    (syms : List String) (hnd : syms.Nodup)
+    (hsyms : ∀ x, x ∈ syms ↔ (x ∈ labels ∧ isParamLike x = false ∧ isIntLabel x = false))
+    (cs : List Int) (hcs : (labels.filter isIntLabel).map pyInt = cs.map some) :
+    v = CodeLen.eval o
+      { k := labels.length,
+        n := syms.length + (labels.any (fun l => isParamLike l || isIntLabel l)).toNat,
+        cs := cs.map absOne } := by
+  unfold treeToAifeyn at hv
+  split at hv
+  · cases hv
+  · rw [aifeyn_spec o labels (labels.filter isParamLike) isParamLike
+      (fun l hl => by rw [List.mem_filter]; exact ⟨fun h => ⟨hl, h⟩, fun h => h.2⟩) syms hnd hsyms cs hcs] at hv
+    cases hv
+    rfl
+
+/-- every parameter label of the tree is in `params` -/
+def ParamsListed (labels params : List String) : Prop := ∀ l ∈ labels, isParamLike l = true → l ∈ params
+
+/-- the labels of the tree that are in `params` are parameter labels -/
+def OnlyParamsListed (labels params : List String) : Prop := ∀ l ∈ labels, l ∈ params → isParamLike l = true
+
+/-- **Single-tree API = stored value.** Every value returned by `tree_to_aifeyn(labels, basis)` equals
+`aifeyn_complexity(labels, params)` for any `param_list` that lists the tree's parameter labels and, among the
+tree's labels, only those — no condition on the names being consecutive. -/
+theorem single_api_agrees {α} (o : LnOps α) (b : Basis) (labels params : List String) (v : α)
+    (hl : ParamsListed labels params) (hp : OnlyParamsListed labels params)
+    (hv : treeToAifeyn o b labels = .ok v) :
+    aifeyn o labels params = .ok v := by
+  unfold treeToAifeyn at hv
+  split at hv
+  · cases hv
+  · rw [← hv, aifeyn_eq_codeLen, aifeyn_eq_codeLen,
+      codeLenOf_congr_params labels params (labels.filter isParamLike)]
+    intro l hl'
+    rw [List.mem_filter]
+    exact ⟨fun h => ⟨hl', hp l hl' h⟩, fun h => hl l hl' h.2⟩
+
+/-- … in particular the value the generation pipeline stores, `aifeyn_complexity(labels, ['a0',…,'a(K-1)'])`,
+as soon as `K` is large enough to list the tree's parameter labels. -/
+theorem single_api_agrees_pipeline {α} (o : LnOps α) (b : Basis) (labels : List String) (K : Nat) (v : α)
+    (hK : ParamsListed labels (paramList K))
     (hv : treeToAifeyn o b labels = .ok v) :
     aifeyn o labels (paramList K) = .ok v := by
-  unfold treeToAifeyn at hv
+  apply single_api_agrees o b labels (paramList K) v hK _ hv
+  intro l _ hm
+  obtain ⟨j, _, hj⟩ := (mem_paramList l K).mp hm
+  rw [← hj]
+  exact isParamLike_pname j
+
+/-- The parameter labels present are exactly `a0 … a(m-1)` for some `m` (no gaps, canonical spelling). -/
+def Gapless (labels : List String) : Prop :=
+  ∃ m, (∀ j, j < m → pname j ∈ labels) ∧ (∀ l ∈ labels, isParamLike l = true → ∃ j, j < m ∧ pname j = l)
+
+/-- **`single_function`, step (4).** `single_function` still derives `param_list` from `get_max_param` of the
+printed function (`['a%i'%j for j in range(max_param)]`).  For label lists without gaps in the parameter names
+this is the same value as `tree_to_aifeyn` (hence the formula, by `single_api_spec`).  With gaps it is not —
+see the example for `["+", "a0", "a2"]` below; `single_function`'s optimiser assumes consecutive names. -/
+theorem single_function_agrees {α} (o : LnOps α) (b : Basis) (labels : List String) (v : α)
+    (hg : Gapless labels)
+    (hv : singleFunctionAifeyn o b labels = .ok v) :
+    treeToAifeyn o b labels = .ok v := by
+  unfold singleFunctionAifeyn at hv
+  unfold treeToAifeyn
   split at hv
   · cases hv
   · split at hv
     · cases hv
-    · split at hv
-      · cases hv
-      · rename_i M hM
-        obtain ⟨m, hall, hlt⟩ := hg
-        have hspec := firstMissing_spec _ _ _ _ hM
-        have hmM : m ≤ M := by
-          apply Classical.byContradiction
-          intro hn
-          have hin := hall M (by omega)
-          have : (labels.any (pyIn (pname M))) = true :=
-            List.any_eq_true.mpr ⟨pname M, hin, pyIn_self _⟩
-          rw [this] at hspec
-          exact Bool.noConfusion hspec.2
-        rw [← hv, aifeyn_eq_codeLen, aifeyn_eq_codeLen]
-        rw [codeLenOf_congr_params labels (paramList K) (paramList M)]
-        intro l hl
-        rw [mem_paramList, mem_paramList]
-        constructor
-        · intro ⟨j, _, hj⟩
-          subst hj
-          exact ⟨j, by have := hlt j hl; omega, rfl⟩
-        · intro ⟨j, _, hj⟩
-          subst hj
-          exact ⟨j, hK j hl, rfl⟩
+    · rename_i M hM
+      obtain ⟨m, hall, hlt⟩ := hg
+      have hspec := firstMissing_spec _ _ _ _ hM
+      have hmM : m ≤ M := by
+        apply Classical.byContradiction
+        intro hn
+        have hin := hall M (by omega)
+        have : (labels.any (pyIn (pname M))) = true :=
+          List.any_eq_true.mpr ⟨pname M, hin, pyIn_self _⟩
+        rw [this] at hspec
+        exact Bool.noConfusion hspec.2
+      show aifeyn o labels (labels.filter isParamLike) = .ok v
+      rw [← hv, aifeyn_eq_codeLen, aifeyn_eq_codeLen,
+        codeLenOf_congr_params labels (labels.filter isParamLike) (paramList M)]
+      intro l hl
+      rw [List.mem_filter, mem_paramList]
+      constructor
+      · intro ⟨_, hpl⟩
+        obtain ⟨j, hj, hjl⟩ := hlt l hl hpl
+        exact ⟨j, by omega, hjl⟩
+      · intro ⟨j, _, hj⟩
+        exact ⟨hl, by rw [← hj]; exact isParamLike_pname j⟩
 
 /-! ### alignment of `aifeyn_<n>.txt` with `trees_<n>.txt` -/
 
@@ -315,43 +394,48 @@ example : aifeyn symOps (["+", "a0", "*", "a1", "x"].map (fun l => if l == "a0" 
     = aifeyn symOps ["+", "a0", "*", "a1", "x"] ["a0", "a1"] :=
   aifeyn_rename symOps _ _ _ (by decide) (by decide) (by decide)
 
-/-- a gapless tree in the single-tree API: value returned, equal to the pipeline's -/
+/-- a gapless tree in the single-tree API: value returned, equal to the pipeline's and to `single_function`'s -/
 example : treeToAifeyn symOps coreMaths ["+", "a1", "*", "a0", "2"] = .ok (CodeLen.eval symOps ⟨5, 3, [2]⟩)
-    ∧ aifeyn symOps ["+", "a1", "*", "a0", "2"] (paramList 3) = .ok (CodeLen.eval symOps ⟨5, 3, [2]⟩) := by decide
+    ∧ aifeyn symOps ["+", "a1", "*", "a0", "2"] (paramList 3) = .ok (CodeLen.eval symOps ⟨5, 3, [2]⟩)
+    ∧ singleFunctionAifeyn symOps coreMaths ["+", "a1", "*", "a0", "2"] = .ok (CodeLen.eval symOps ⟨5, 3, [2]⟩) := by
+  decide
 
 example : Gapless ["+", "a1", "*", "a0", "2"] := by
   refine ⟨2, ?_, ?_⟩
   · intro j hj
     have : j = 0 ∨ j = 1 := by omega
     rcases this with h | h <;> subst h <;> decide
-  · intro j hj
-    have : pname j = "a1" ∨ pname j = "a0" := by
-      have : pname j = "+" ∨ pname j = "a1" ∨ pname j = "*" ∨ pname j = "a0" ∨ pname j = "2" := by simpa using hj
-      have ha : ∀ s : String, pname j = s → s.toList.head? = some 'a' := by
-        intro s hs; rw [← hs]; simp [pname, String.toList_append]
-      rcases this with h | h | h | h | h
-      · exact absurd (ha _ h) (by decide)
-      · exact Or.inl h
-      · exact absurd (ha _ h) (by decide)
-      · exact Or.inr h
-      · exact absurd (ha _ h) (by decide)
-    have hinj : ∀ k, pname j = pname k → j = k := by
-      intro k hk
-      have : toString j = toString k := by
-        have := congrArg String.toList hk
-        simp only [pname, String.toList_append] at this
-        exact String.toList_inj.mp (List.append_cancel_left this)
-      exact Nat.repr_inj.mp this
-    rcases this with h | h
-    · have := hinj 1 (by rw [h]; decide); omega
-    · have := hinj 0 (by rw [h]; decide); omega
+  · intro l hl hp
+    have : l = "+" ∨ l = "a1" ∨ l = "*" ∨ l = "a0" ∨ l = "2" := by simpa using hl
+    rcases this with h | h | h | h | h <;> subst h
+    · exact absurd hp (by decide)
+    · exact ⟨1, by omega, by decide⟩
+    · exact absurd hp (by decide)
+    · exact ⟨0, by omega, by decide⟩
+    · exact absurd hp (by decide)
 
-/-- **F5 as a theorem about the model of the code as written**: with the gapped names `a0, a2` the
-single-tree API counts `a2` as an operator (`n = 3`), whereas the formula with both parameters listed gives
-`n = 2`.  So `Gapless` cannot be dropped from `single_api_agrees`. -/
-theorem gapped_counterexample :
-    treeToAifeyn symOps coreMaths ["+", "a0", "a2"] = .ok (CodeLen.eval symOps ⟨3, 3, []⟩)
+example : ParamsListed ["+", "a0", "a2"] (paramList 3) ∧ OnlyParamsListed ["+", "a0", "a2"] (paramList 3) := by
+  constructor
+  · intro l hl _
+    have : l = "+" ∨ l = "a0" ∨ l = "a2" := by simpa using hl
+    rcases this with h | h | h <;> subst h <;> first | decide | (exfalso; revert ‹isParamLike "+" = true›; decide)
+  · intro l hl _
+    have : l = "+" ∨ l = "a0" ∨ l = "a2" := by simpa using hl
+    rcases this with h | h | h <;> subst h <;> first | decide | (exfalso; revert ‹"+" ∈ paramList 3›; decide)
+
+/-- **Gapped parameter names now agree with the formula** (the F5 defect, fixed in /repo bda8ceb): for
+`["+", "a0", "a2"]` the single-tree API returns `3·ln 2` — both parameters are one symbol — which is the value
+`aifeyn_complexity` gives with both parameters listed. -/
+theorem gapped_names_agree :
+    treeToAifeyn symOps coreMaths ["+", "a0", "a2"] = .ok (CodeLen.eval symOps ⟨3, 2, []⟩)
     ∧ aifeyn symOps ["+", "a0", "a2"] (paramList 3) = .ok (CodeLen.eval symOps ⟨3, 2, []⟩)
+    ∧ treeToAifeyn symOps coreMaths ["*", "a10", "pow", "a3", "-2"] = .ok (CodeLen.eval symOps ⟨5, 3, [2]⟩) := by
+  decide
+
+/-- The OLD rule (`param_list` from `get_max_param`, still used by `single_function`) counts `a2` as an
+operator on the same labels: `n = 3`.  So `Gapless` cannot be dropped from `single_function_agrees`, and a
+regression of the fix would break `single_api_spec`. -/
+example : singleFunctionAifeyn symOps coreMaths ["+", "a0", "a2"] = .ok (CodeLen.eval symOps ⟨3, 3, []⟩)
     ∧ CodeLen.eval symOps ⟨3, 3, []⟩ ≠ CodeLen.eval symOps ⟨3, 2, []⟩ := by decide
 
 /-- alignment on a concrete library: two shapes, extras coming from two ranks, integers in the extras -/
